@@ -10,7 +10,7 @@
 //	R3  for-range over a map  -> range over simrt.MapEntries(m); reflect MapKeys/MapRange
 //	R4  time.Now/Since/Until/Sleep -> simrt
 //	R5  sync.(RW)Mutex.Lock/RLock -> simrt.Lock(try, lock); sync.Once.Do -> simrt.OnceDo
-//	R6  go statements / channel operations / select / WaitGroup / Cond: reported as unsupported
+//	R6  go statements: rewritten to simrt.Go (function value and arguments evaluated by the starter); WaitGroup: shadow counter; channel operations / select / Cond: reported as unsupported
 //	R7  tuning constants listed in -knobs become variables registered with simrt
 //	P   simrt.Enter/Leave probes at the start of functions listed in -probes
 package main
@@ -487,8 +487,7 @@ func (c *fileCtx) stmt(st ast.Stmt, inList bool) {
 			c.block(cl.(*ast.CommClause).Body)
 		}
 	case *ast.GoStmt:
-		c.unsupported(n.Pos(), "go statement")
-		c.walkExpr(n.Call)
+		c.goStmt(n)
 	case *ast.SendStmt:
 		c.unsupported(n.Pos(), "channel send")
 	case *ast.DeferStmt:
@@ -528,6 +527,84 @@ func (c *fileCtx) stmt(st ast.Stmt, inList bool) {
 	case *ast.LabeledStmt:
 		c.stmt(n.Stmt, false)
 	}
+}
+
+// goStmt (R6): `go FUN(A0, A1)` becomes
+//
+//	{ f__, a0__, a1__ := FUN, A0, A1; simrt__.Go(func() { f__(a0__, a1__) }) }
+//
+// so that function value and arguments are evaluated by the starting goroutine, as the
+// language prescribes, and the new goroutine is a simulated task. FUN and the arguments
+// stay where they are in the text (edits inside them compose); constant arguments are
+// converted to the parameter's (basic) type. Anything else is reported as unsupported.
+func (c *fileCtx) goStmt(n *ast.GoStmt) {
+	call := n.Call
+	bail := func(why string) {
+		c.unsupported(n.Pos(), "go statement ("+why+")")
+		c.walkExpr(call)
+	}
+	if c.info == nil {
+		bail("no type information")
+		return
+	}
+	sig, ok := c.info.TypeOf(call.Fun).(*types.Signature)
+	if !ok {
+		bail("not a function value") // conversion or built-in
+		return
+	}
+	if id, ok := call.Fun.(*ast.Ident); ok {
+		if _, isB := c.info.Uses[id].(*types.Builtin); isB {
+			bail("built-in")
+			return
+		}
+	}
+	names := []string{"f__"}
+	for i, a := range call.Args {
+		tv := c.info.Types[a]
+		if tup, ok := tv.Type.(*types.Tuple); ok && tup.Len() != 1 {
+			bail("multi-value argument")
+			return
+		}
+		if tv.Value != nil || tv.IsNil() || func() bool {
+			b, ok := tv.Type.(*types.Basic)
+			return ok && b.Info()&types.IsUntyped != 0
+		}() {
+			// constant / untyped argument: give it the parameter's type
+			var pt types.Type
+			switch {
+			case sig.Variadic() && i >= sig.Params().Len()-1:
+				pt = sig.Params().At(sig.Params().Len() - 1).Type().(*types.Slice).Elem()
+			case i < sig.Params().Len():
+				pt = sig.Params().At(i).Type()
+			}
+			b, ok := pt.(*types.Basic)
+			if !ok || tv.IsNil() {
+				bail("constant argument of a non-basic parameter type")
+				return
+			}
+			c.insert(a.Pos(), b.Name()+"(")
+			c.insert(a.End(), ")")
+		}
+		names = append(names, fmt.Sprintf("a%d__", i))
+	}
+	c.walkExpr(call.Fun)
+	for _, a := range call.Args {
+		c.walkExpr(a)
+	}
+	c.replace(n.Pos(), call.Fun.Pos(), "{ "+strings.Join(names, ", ")+" := ")
+	if len(call.Args) > 0 {
+		c.replace(call.Lparen, call.Lparen+1, ", ")
+	} else {
+		c.replace(call.Lparen, call.Lparen+1, "")
+	}
+	inv := "f__(" + strings.Join(names[1:], ", ")
+	if call.Ellipsis.IsValid() {
+		c.replace(call.Ellipsis, call.Ellipsis+3, "")
+		inv += "..."
+	}
+	inv += ")"
+	c.replace(call.Rparen, call.Rparen+1, "; simrt__.Go(func() { "+inv+" }) }")
+	rep.Counts["go"]++
 }
 
 func (c *fileCtx) unsupported(pos token.Pos, what string) {
